@@ -4,8 +4,13 @@
       the handful of os calls the code makes.  Definitions only; proofs are in
       Proofs/BackupProofs.v so the model still runs when a proof breaks. *)
 From Coq Require Import List NArith Bool.
+From DH Require Import Lib.CheckLib.
 Import ListNotations.
 Open Scope N_scope.
+
+(** file contents that are compared verbatim (the storage id files): byte strings *)
+Definition bytes := list N.
+Definition bytes_eqb : bytes -> bytes -> bool := list_eqb N.eqb.
 
 (** ** 1. The source store as a versioned log (TRUSTED model of Badger)
 
@@ -72,7 +77,7 @@ Definition fname_eqb (a b : fname) : bool :=
   | _, _ => false
   end.
 
-Inductive fdata := DEntries (l : list entry) | DNum (n : N).
+Inductive fdata := DEntries (l : list entry) | DNum (n : N) | DBytes (b : bytes).
 
 Definition fs := list (fname * fdata).
 
@@ -87,6 +92,22 @@ Fixpoint fs_set (f : fs) (n : fname) (d : fdata) : fs :=
   | [] => [(n, d)]
   | (n', d') :: f' => if fname_eqb n' n then (n, d) :: f' else (n', d') :: fs_set f' n d
   end.
+
+Fixpoint fs_remove (f : fs) (n : fname) : fs :=
+  match f with
+  | [] => []
+  | (n', d') :: f' => if fname_eqb n' n then f' else (n', d') :: fs_remove f' n
+  end.
+
+Definition fdata_eqb (a b : fdata) : bool :=
+  match a, b with
+  | DEntries x, DEntries y => list_eqb entry_eqb x y
+  | DNum x, DNum y => x =? y
+  | DBytes x, DBytes y => bytes_eqb x y
+  | _, _ => false
+  end.
+Definition fs_eqb : fs -> fs -> bool :=
+  list_eqb (fun a b => fname_eqb (fst a) (fst b) && fdata_eqb (snd a) (snd b)).
 
 (** os.Open (read-only) | os.Create (O_RDWR|O_CREATE|O_TRUNC) | os.OpenFile(O_APPEND|O_WRONLY) *)
 Inductive omode := MRead | MCreate | MAppend.
@@ -126,7 +147,7 @@ Definition read_name (v : variant) : fname :=
 (** ** 4. The hub + backup manager *)
 Record state := {
   s_src : list entry;        (* the store (Badger log) *)
-  s_store_id : N;            (* content of <store>/DATAHUB_BACKUPID, written once by Store.Open *)
+  s_store_id : bytes;        (* content of <store>/DATAHUB_BACKUPID (Store.Open writes it only when missing) *)
   s_fs : fs;                 (* the backup location *)
   s_cursor : N;              (* BackupManager.lastID *)
   s_running : bool;          (* BackupManager.isRunning *)
@@ -144,13 +165,14 @@ Definition load_last_id (v : variant) (f : fs) : N :=
 (** StoreLastID: os.Create(datahub-backup.lastseen); write 8 bytes *)
 Definition store_last_id (f : fs) (c : N) : fs := fs_set f FSeen (DNum c).
 
-(** validLocation: the store's id file is always readable here (Store.Open wrote it).
-    No id file at the location -> copy ours there, valid.  Otherwise valid iff equal. *)
+(** validLocation, evaluated afresh on EVERY run: the store's id file is always readable here.
+    No id file at the location -> copy ours there (io.Copy), valid.  Otherwise valid iff the two
+    files have the same content, byte for byte (`dhID == buDhID` on strings: no trimming, no parsing). *)
 Definition valid_location (st : state) : bool * fs :=
   match fs_get (s_fs st) FStorageId with
-  | None => (true, fs_set (s_fs st) FStorageId (DNum (s_store_id st)))
-  | Some (DNum b) => (b =? s_store_id st, s_fs st)
-  | Some (DEntries _) => (false, s_fs st)
+  | None => (true, fs_set (s_fs st) FStorageId (DBytes (s_store_id st)))
+  | Some (DBytes b) => (bytes_eqb (s_store_id st) b, s_fs st)
+  | Some _ => (false, s_fs st)
   end.
 
 Definition file_exists (f : fs) (n : fname) : bool :=
@@ -198,7 +220,12 @@ Definition run_backup (v : variant) (st : state) : state * N :=
 Inductive op :=
   | OWrite (m ds k v : N) (del : bool)  (* one StoreEntities; [m] = store version afterwards *)
   | OBackup                             (* one scheduler tick of the backup job *)
-  | ORestart (m : N).                   (* Store.Close (sequence release) + NewStore (new lease) + NewBackupManager *)
+  | ORestart (m : N)                    (* Store.Close (sequence release) + NewStore (new lease) + NewBackupManager *)
+  (* the environment: somebody else changes what is found at the backup location *)
+  | OSetLocId (b : bytes)               (* the location's DATAHUB_BACKUPID is replaced (another store's id, emptied, ...) *)
+  | ODelLocId.                          (* ... or removed *)
+
+Definition is_env (o : op) : bool := match o with OSetLocId _ | ODelLocId => true | _ => false end.
 
 Definition step (v : variant) (st : state) (o : op) : state * N :=
   match o with
@@ -209,6 +236,8 @@ Definition step (v : variant) (st : state) (o : op) : state * N :=
   | ORestart m =>
     ({| s_src := src_put (s_src st) m sys_ds 0 m false; s_store_id := s_store_id st; s_fs := s_fs st;
         s_cursor := load_last_id v (s_fs st); s_running := false; s_snap := s_snap st |}, R_NONE)
+  | OSetLocId b => (with_fs st (fs_set (s_fs st) FStorageId (DBytes b)), R_NONE)
+  | ODelLocId => (with_fs st (fs_remove (s_fs st) FStorageId), R_NONE)
   end.
 
 Fixpoint run (v : variant) (ops : list op) (st : state) : state :=
@@ -219,7 +248,7 @@ Fixpoint run (v : variant) (ops : list op) (st : state) : state :=
 
 (** a new store (version [m0] after NewStore) and a backup location with content [f];
     NewBackupManager loads the cursor *)
-Definition init (v : variant) (m0 sid : N) (f : fs) : state :=
+Definition init (v : variant) (m0 : N) (sid : bytes) (f : fs) : state :=
   {| s_src := src_put [] m0 sys_ds 0 m0 false; s_store_id := sid; s_fs := f;
      s_cursor := load_last_id v f; s_running := false; s_snap := None |}.
 
@@ -235,7 +264,14 @@ Definition restore_ok (st : state) : Prop :=
     exists file, fs_get (s_fs st) FKv = Some (DEntries file) /\
                  forall ds k, latest ds k (badger_load file) = latest ds k s.
 
-(** what a per-step trace of the model shows: (cursor, cursor file, result, kv file changed) *)
+(** the location belongs to somebody else: it carries an id file whose content is not ours *)
+Definition loc_id (f : fs) : option bytes :=
+  match fs_get f FStorageId with Some (DBytes b) => Some b | _ => None end.
+Definition is_foreign (sid : bytes) (loc : option bytes) : bool :=
+  match loc with Some b => negb (bytes_eqb sid b) | None => false end.
+
+(** what a per-step trace of the model shows: cursor, cursor file, result, kv file changed,
+    the location's id file afterwards, any file of the location changed *)
 Definition seen_file (f : fs) : option N :=
   match fs_get f FSeen with Some (DNum n) => Some n | _ => None end.
 Definition kv_len (f : fs) : option nat :=
@@ -243,7 +279,8 @@ Definition kv_len (f : fs) : option nat :=
 Definition optnat_eqb (a b : option nat) : bool :=
   match a, b with Some x, Some y => Nat.eqb x y | None, None => true | _, _ => false end.
 
-Record obs_step := { x_cursor : N; x_disk : option N; x_res : N; x_grew : bool }.
+Record obs_step := { x_cursor : N; x_disk : option N; x_res : N; x_grew : bool;
+                     x_locid : option bytes; x_touched : bool }.
 
 Fixpoint trace (v : variant) (ops : list op) (st : state) : list obs_step * state :=
   match ops with
@@ -251,7 +288,8 @@ Fixpoint trace (v : variant) (ops : list op) (st : state) : list obs_step * stat
   | o :: ops' =>
     let '(st1, r) := step v st o in
     let x := {| x_cursor := s_cursor st1; x_disk := seen_file (s_fs st1); x_res := r;
-                x_grew := negb (optnat_eqb (kv_len (s_fs st)) (kv_len (s_fs st1))) |} in
+                x_grew := negb (optnat_eqb (kv_len (s_fs st)) (kv_len (s_fs st1)));
+                x_locid := loc_id (s_fs st1); x_touched := negb (fs_eqb (s_fs st) (s_fs st1)) |} in
     let '(xs, stn) := trace v ops' st1 in
     (x :: xs, stn)
   end.
